@@ -5,15 +5,15 @@ go 1.26
 require (
 	github.com/magisterquis/curlrevshell v0.0.0
 	golang.org/x/sys v0.26.0
+	golang.org/x/tools v0.26.0
 )
 
 require (
 	github.com/magisterquis/goxterm v0.0.1-beta.2 // indirect
-	golang.org/x/net v0.30.0 // indirect
 	golang.org/x/exp v0.0.0-20241009180824-f66d83c29e7c // indirect
+	golang.org/x/net v0.30.0 // indirect
 	golang.org/x/sync v0.8.0 // indirect
 	golang.org/x/text v0.19.0 // indirect
-	golang.org/x/tools v0.26.0 // indirect
 )
 
 replace github.com/magisterquis/curlrevshell => /repo
